@@ -15,6 +15,15 @@ CHECKS = {
              "lexer for drop detection, junk-suffix metamorphic relation, sanitizers, bounded native stack). Finds violations; does not establish absence.",
         note="trusts ASan/UBSan and the harness lexer (common/parse_oracle.hpp); over-reads of exactly one byte past a std::string are invisible",
         design="4/C01"),
+    "C02": dict(
+        engine="hypothesis-runner",
+        category="exploration",
+        technique="differential property testing: the same generated program evaluated with the default optimizer pipeline and with optimization disabled, in one sanitizer-instrumented process",
+        text="Generated programs (shared grammar-directed generator plus templates aimed at each rewrite's trigger and near misses) are evaluated on two "
+             "fresh engines; stdout, result type and rendering, exception class and reason, the rec() log and the final state of C++ objects "
+             "registered by reference must be equal. Non-triviality (the two parse trees differ) and the rewrites seen are measured from the trees.",
+        note="both sides come from the same tree, so a defect common to both pipelines is invisible here (C03 covers that); ASan stack-use-after-return detection is on",
+        design="4/C02"),
     "C03": dict(
         engine="hypothesis-runner",
         category="exploration",
